@@ -2,7 +2,7 @@
 (***************************************************************************)
 (* Trace validation for C19 against layer B (conformance of the            *)
 (* implementation-shaped model, code -> spec).  A line of traces.ndjson:   *)
-(*   [n, k, fault |-> <<"none"|"pp"|"wr", ...>>,                           *)
+(*   [n, k, withpp, fault |-> <<"none"|"pp"|"wr", ...>>,                   *)
 (*    d |-> gates reached by the dispatcher, in its own order,             *)
 (*    w |-> <<gates reached by worker 1 in its own order, ...>>,           *)
 (*    ret |-> "ok"|"err", got |-> job whose error was returned]            *)
@@ -20,7 +20,7 @@ tvars == <<vars, tr, di, wi>>
 T == Traces[tr]
 
 TInit == /\ tr \in 1..Len(Traces)
-         /\ n = Traces[tr].n /\ k = Traces[tr].k
+         /\ n = Traces[tr].n /\ k = Traces[tr].k /\ hasPP = Traces[tr].withpp
          /\ Init
          /\ Len(Traces[tr].d) >= 1 /\ Traces[tr].d[1] = dpc
          /\ di = 2
